@@ -387,6 +387,14 @@ func genC02(t *rapid.T) c02Case {
 		var prefix string
 		if rapid.IntRange(0, 5).Draw(t, "unk") == 0 {
 			prefix = rapid.StringMatching("[a-z]{1,12}").Draw(t, "unkprefix")
+			switch rapid.IntRange(0, 3).Draw(t, "nearprefix") {
+			case 0: // a known prefix with something appended
+				prefix = genKnownPrefix(t) + rapid.StringMatching("[a-z]{1,4}").Draw(t, "ext")
+			case 1: // a known prefix cut short
+				if p := genKnownPrefix(t); len(p) > 1 {
+					prefix = p[:rapid.IntRange(1, len(p)-1).Draw(t, "cut")]
+				}
+			}
 		} else {
 			prefix = genKnownPrefix(t)
 		}
